@@ -62,6 +62,9 @@ def main():
     else:
         bm, bp, nrand = 4, 4, 5000       # the property's full box
     cases = list(box(bm, topics, bp))
+    # "every cluster layout": a layout with an internal topic (flagged so in the metadata, like __consumer_offsets), which
+    # the real ClusterMetadata.topics() leaves out while partitions_for_topic() knows it
+    icases = list(box(3, ["ta", "__ti"], 2 if a.tier == "quick" else 3))
     rnd = random.Random(a.seed)
     rcases = [random_case(rnd) for _ in range(nrand)]
     for name in ("range", "roundrobin", "sticky"):
@@ -72,6 +75,11 @@ def main():
                        "non-empty subscription per member" % (bm, topics, bp),
               "failures": fails, "wall_s": round(time.time() - t0, 1),
               "replay": {"script": REPLAY % (name, bm, bp)}})
+        n, nontrivial, fails = sweep(name, icases, 16)
+        emit({"name": "%s-internal-topic-box" % name, "exhaustive": True, "cases": n, "distinct_nontrivial": nontrivial,
+              "bound": "every group of <= 3 members (up to renaming) x topics ['ta', '__ti' (internal)] x 0..%d partitions or no "
+                       "metadata x every non-empty subscription per member" % (2 if a.tier == "quick" else 3),
+              "failures": fails, "replay": {"script": REPLAY_INTERNAL % name}})
         n, nontrivial, fails = sweep(name, rcases, 16)
         emit({"name": "%s-random" % name, "exhaustive": False, "cases": n, "distinct_nontrivial": nontrivial,
               "bound": "%d seeded random groups up to 12 members x 8 topics x 12 partitions, seed %d" % (nrand, a.seed),
@@ -98,6 +106,22 @@ def main():
                    "claims by members that dropped the topic since (every other case), stale claims under a lower generation; "
                    "validity + KIP-54 balance; seed %d" % (n, a.seed),
           "failures": fails[:10], "failures_total": len(fails), "replay": {"script": REPLAY_ARB % a.seed}})
+
+
+REPLAY_INTERNAL = '''
+import sys
+sys.path.insert(0, "/verif")
+from bounded.assign_common import assignors, run, check_valid, check_balance
+name = %r
+parts = {"ta": 2, "__ti": 2}
+subs = {"m0": ["ta", "__ti"], "m1": ["ta", "__ti"]}
+try:
+    res = run(assignors()[name], parts, subs)
+    errs = check_valid(parts, subs, res) + check_balance(name, parts, subs, res)
+except Exception as e:
+    errs = ["raised %%s: %%s" %% (type(e).__name__, e)]
+VIOLATED = bool(errs); DETAIL = "%%s assignor, partitions %%r, subscriptions %%r: %%r" %% (name, parts, subs, errs)
+'''
 
 
 REPLAY_ARB = '''
